@@ -27,6 +27,7 @@ var concKinds = []string{"create", "match", "mismatch", "update"}
 
 type concCall struct {
 	G, Test, Kind, Value string
+	Alias                bool // the goroutine reaches the shared directory through a symbolic link (another spelling of the same file)
 	Second               bool // the goroutine makes a second, creating call afterwards (ordinal 2)
 }
 
@@ -67,12 +68,24 @@ func concStep(c concCall, standalone bool) *Step {
 	if standalone {
 		api = "ssnap"
 	}
+	if c.Alias {
+		cfg = "al_" + cfg
+	}
 	return &Step{Op: "match", Name: c.Test, API: api, Cfg: cfg, Val: strVal(c.Value)}
 }
 
 func concScenario(id string, calls []concCall, order []int, standalone bool, schedule []string) *Scenario {
 	sc := &Scenario{ID: id, Configs: stdConfigs(), OwnProc: true}
 	sc.Init = concInit(calls, order, standalone)
+	for _, c := range calls {
+		if c.Alias {
+			sc.Init = append(sc.Init, InitFile{P: "snaps", IsDir: true}, InitFile{P: "alias", Content: []byte("snaps"), Role: "symlink"})
+			sc.Configs["al_c"] = &Cfg{Dir: sp("@/alias")}
+			sc.Configs["al_ut"] = &Cfg{Dir: sp("@/alias"), Update: bp(true)}
+			sc.Configs["al_uf"] = &Cfg{Dir: sp("@/alias"), Update: bp(false)}
+			break
+		}
+	}
 	st := &Step{Op: "conc", Schedule: schedule}
 	for _, c := range calls {
 		steps := []*Step{concStep(c, standalone)}
@@ -651,6 +664,13 @@ func checkC06(c *CheckCtx) error {
 		calls := []concCall{{G: "A", Test: "TestAB", Kind: "create", Value: "value of AB", Second: true}, {G: "B", Test: "TestA", Kind: kb, Value: "value of A"}}
 		pairs = append(pairs, pairT{calls, []int{0, 1}})
 	}
+	// the same file under two spellings (one goroutine goes through a symbolic link to the
+	// directory): exclusion must be per file, not per path string. Same model configurations as
+	// above, so only the real schedules are enumerated.
+	for _, ks := range [][2]string{{"update", "create"}, {"create", "update"}, {"update", "update"}, {"create", "create"}} {
+		calls := []concCall{{G: "A", Test: "TestA", Kind: ks[0], Value: "value of A\nline 2"}, {G: "B", Test: "TestB", Kind: ks[1], Value: "value of B", Alias: true}}
+		pairs = append(pairs, pairT{calls, []int{0, 1}})
+	}
 	// schedules enumerated directly on the real code
 	logsValidated := 0
 	var all []*concCase
@@ -675,7 +695,7 @@ func checkC06(c *CheckCtx) error {
 			}
 		}
 		all = append(all, cs...)
-		if extractionOK && len(p.calls) == 2 && !p.calls[0].Second {
+		if extractionOK && len(p.calls) == 2 && !p.calls[0].Second && !p.calls[1].Alias {
 			n, drift, err := c.validateConcLogs(progs, cs)
 			if err != nil {
 				return err
